@@ -2,6 +2,7 @@ package sym
 
 import (
 	"fmt"
+	"go/types"
 	"os"
 	"strings"
 	"time"
@@ -97,6 +98,28 @@ func (e *Engine) presetGlobal(w *Worker, g *ssa.Global) bool {
 		w.globals[g] = &v
 		return true
 	}
+	// net/netip: its init interns the address-family markers through package
+	// unique (runtime weak pointers); the markers only need distinct identities
+	if g.Pkg.Pkg.Path() == "net/netip" && (g.Name() == "z0" || g.Name() == "z4" || g.Name() == "z6noz") {
+		h := zero(mustDeref(g.Type())) // unique.Handle[addrDetail]{value *addrDetail}
+		if g.Name() != "z0" {
+			st := mustDeref(g.Type()).Underlying().(*types.Struct)
+			det := zero(mustDeref(st.Field(0).Type()))
+			if g.Name() == "z6noz" {
+				det.(Struct)[0] = mkBool(true) // isV6
+			}
+			h.(Struct)[0] = &det
+		}
+		w.globals[g] = &h
+		return true
+	}
+	// sentinel errors of packages whose init is not interpreted (net.ErrClosed,
+	// os.ErrDeadlineExceeded, ...): a distinct opaque error value per variable
+	if types.Identical(mustDeref(g.Type()), types.Universe.Lookup("error").Type()) && g.Object() != nil && g.Object().Exported() && strings.HasPrefix(g.Name(), "Err") {
+		var v Value = w.newError(name)
+		w.globals[g] = &v
+		return true
+	}
 	return false
 }
 
@@ -144,7 +167,56 @@ func (e *Engine) Bind(p *Program, fn string) error {
 	sortPkgs(std)
 	sortPkgs(other)
 	e.InitPkg = append(std, other...)
+	e.UsesTryLock = e.moduleCalls("TryLock", "TryRLock")
 	return nil
+}
+
+// moduleCalls reports whether any function of the module under test calls a
+// sync method of one of the given names.
+func (e *Engine) moduleCalls(names ...string) bool {
+	found := false
+	var scan func(f *ssa.Function)
+	scan = func(f *ssa.Function) {
+		for _, b := range f.Blocks {
+			for _, in := range b.Instrs {
+				ci, ok := in.(ssa.CallInstruction)
+				if !ok {
+					continue
+				}
+				if c := ci.Common().StaticCallee(); c != nil && c.Pkg != nil && c.Pkg.Pkg.Path() == "sync" {
+					for _, n := range names {
+						if c.Name() == n {
+							found = true
+						}
+					}
+				}
+			}
+		}
+		for _, a := range f.AnonFuncs {
+			scan(a)
+		}
+	}
+	for _, pkg := range e.Prog.AllPackages() {
+		if !strings.HasPrefix(pkg.Pkg.Path(), e.Cfg.ModulePath) {
+			continue
+		}
+		for _, m := range pkg.Members {
+			switch m := m.(type) {
+			case *ssa.Function:
+				scan(m)
+			case *ssa.Type:
+				for _, t := range []types.Type{m.Type(), types.NewPointer(m.Type())} {
+					ms := e.Prog.MethodSets.MethodSet(t)
+					for i := 0; i < ms.Len(); i++ {
+						if f := e.Prog.MethodValue(ms.At(i)); f != nil && f.Blocks != nil {
+							scan(f)
+						}
+					}
+				}
+			}
+		}
+	}
+	return found
 }
 
 func sortPkgs(ps []*ssa.Package) {
